@@ -606,3 +606,21 @@ Proof.
   { apply (toks_eq r); [exact HF|apply timg_rel|]. rewrite Hloss. unfold out. apply cc_go_timg. }
   unfold change_case. rewrite Hr'. cbn [bind]. rewrite E, cc_go_timg_idem. reflexivity.
 Qed.
+
+(* ------------------------------------------------------------------ round 3: the boundary as theorems *)
+(* exact length for EVERY string: the one closing brace the scanner adds *)
+Lemma change_case_length_all_lemma s mode out : change_case s mode = Ok out ->
+  length out = length s + (if ends_in_special s then 1 else 0).
+Proof.
+  intros H. pose proof (change_case_upto_case_all_lemma s mode out H) as E.
+  apply lower_length in E. rewrite E, app_length. destruct (ends_in_special s); reflexivity.
+Qed.
+
+(* idempotence does fail outside its hypothesis *)
+Lemma change_case_idem_refuted_lemma :
+  exists s mode out, ends_in_special s = true /\ change_case s mode = Ok out /\ change_case out mode <> Ok out.
+Proof.
+  exists (s2l "{\{"), 0, (s2l "{\{}"). split; [reflexivity|]. split; [vm_compute; reflexivity|].
+  vm_compute. discriminate.
+Qed.
+
